@@ -31,6 +31,10 @@ INVARIANTS
   Inv_C13_QueueSound
   Inv_C13_QueueComplete
 PROPERTIES
+  Act_Gh_C06_Budget
+  Act_Gh_C06_Funded
+  Act_Gh_C06_ProRata
+  Act_Gh_C13_QueueComplete
   Act_C12_Farm_Queue
   Act_C05_UnstakeNeverFails_ModF2
   Act_C05_UnstakeExact
